@@ -121,7 +121,7 @@ func c05MarginalBook(r *rng, p sdk.Dec, prec int, side int, k sdkmath.Int) []c05
 		}
 		return total
 	}
-	// the marginal tick at the match price (sometimes one tick inside for sells: still the last eligible tick)
+	// the marginal tick at the match price: the last eligible tick of its side
 	marginal := func(buy bool, atLeast sdkmath.Int) sdkmath.Int {
 		amt := sdkmath.MaxInt(atLeast, unit).Add(unit.MulRaw(int64(r.intn(4)))).AddRaw(int64(r.intn(3)))
 		parts := []sdkmath.Int{amt}
